@@ -1,4 +1,4 @@
-(* C10 lemmas, part 1: refusals, the registry's orphan guard, existence flags. *)
+(* C10 lemmas, part 1: refusals, the registry's orphan guard, existence flags, the datastore-bridge invariant. *)
 From Coq Require Import NArith List Bool Lia.
 From V Require Import Model.Removal.
 Import ListNotations.
@@ -11,3 +11,278 @@ Proof.
   | context [match ?x with _ => _ end] => destruct x eqn:?; simpl in H
   end; try congruence; inversion H; reflexivity.
 Qed.
+
+(* ---------- membership ---------- *)
+Lemma memN_In : forall x l, memN x l = true <-> In x l.
+Proof.
+  intros x l. unfold memN. rewrite existsb_exists. split.
+  - intros [y [Hy E]]. apply N.eqb_eq in E. subst. exact Hy.
+  - intro H. exists x. split; [exact H | apply N.eqb_refl].
+Qed.
+Lemma memN_false : forall x l, memN x l = false <-> ~ In x l.
+Proof. intros x l. rewrite <- memN_In. destruct (memN x l); split; intro H; congruence || (exfalso; apply H; reflexivity) || discriminate. Qed.
+
+Lemma art_eqb_eq : forall a b, art_eqb a b = true <-> a = b.
+Proof.
+  intros [a1 a2] [b1 b2]. unfold art_eqb. simpl. rewrite andb_true_iff, !N.eqb_eq. split.
+  - intros [-> ->]. reflexivity.
+  - intro H. inversion H. split; reflexivity.
+Qed.
+Lemma memA_In : forall p l, memA p l = true <-> In p l.
+Proof.
+  intros p l. unfold memA. rewrite existsb_exists. split.
+  - intros [y [Hy E]]. apply art_eqb_eq in E. subst. exact Hy.
+  - intro H. exists p. split; [exact H | apply art_eqb_eq; reflexivity].
+Qed.
+
+Lemma addN_In : forall x y l, In y (addN x l) <-> y = x \/ In y l.
+Proof.
+  intros x y l. unfold addN. destruct (memN x l) eqn:E.
+  - apply memN_In in E. split; [intro H; right; exact H | intros [-> | H]; assumption].
+  - simpl. split; [intros [<- | H]; [left; reflexivity | right; exact H] | intros [-> | H]; [left; reflexivity | right; exact H]].
+Qed.
+Lemma fold_addN_In : forall m l y, In y (fold_right addN l m) <-> In y m \/ In y l.
+Proof.
+  induction m as [| x m IH]; intros l y; simpl.
+  - split; [intro H; right; exact H | intros [[] | H]; exact H].
+  - rewrite addN_In, IH. split.
+    + intros [-> | [H | H]]; [left; left; reflexivity | left; right; exact H | right; exact H].
+    + intros [[<- | H] | H]; [left; reflexivity | right; left; exact H | right; right; exact H].
+Qed.
+Lemma dedup_In : forall l x, In x (dedup l) <-> In x l.
+Proof.
+  induction l as [| y l IH]; intro x; simpl; [tauto |].
+  destruct (memN y l) eqn:E.
+  - rewrite IH. apply memN_In in E. split; [intro H; right; exact H | intros [<- | H]; assumption].
+  - simpl. rewrite IH. tauto.
+Qed.
+
+(* keyed lists *)
+Definition hasK (d : N) (l : list (N * art)) : bool := existsb (fun p => fst p =? d) l.
+Lemma hasK_In : forall d l, hasK d l = true <-> exists p, In (d, p) l.
+Proof.
+  intros d l. unfold hasK. rewrite existsb_exists. split.
+  - intros [[k p] [Hin E]]. simpl in E. apply N.eqb_eq in E. subst. exists p. exact Hin.
+  - intros [p Hin]. exists (d, p). split; [exact Hin | simpl; apply N.eqb_refl].
+Qed.
+Lemma has_rec_In : forall s d, has_rec s d = true <-> exists p, In (d, p) (recs s).
+Proof. intros. apply hasK_In. Qed.
+Lemma has_ds_In : forall s d, has_ds s d = true <-> exists p, In (d, p) (ds s).
+Proof. intros. apply hasK_In. Qed.
+Lemma find_key_some : forall d (l : list (N * art)) p, find (fun q => fst q =? d) l = Some p -> fst p = d /\ In p l.
+Proof.
+  intros d l p H. apply find_some in H. destruct H as [Hin E]. apply N.eqb_eq in E. split; assumption.
+Qed.
+Lemma find_key_none : forall d (l : list (N * art)), find (fun q => fst q =? d) l = None -> hasK d l = false.
+Proof.
+  intros d l H. unfold hasK. destruct (existsb (fun p => fst p =? d) l) eqn:E; [| reflexivity].
+  apply existsb_exists in E. destruct E as [x [Hin Hx]]. pose proof (find_none _ _ H x Hin) as F. simpl in F. congruence.
+Qed.
+
+(* ---------- existence flags are the three facts ---------- *)
+Lemma exists_flags_spec_l : forall s d,
+  (fst (fst (exists_flags s d)) = true <-> exists a, In (d, a) (ds s)) /\
+  (snd (fst (exists_flags s d)) = true <-> exists p, In (d, p) (recs s)) /\
+  (snd (exists_flags s d) = true <-> exists p, rec_path s d = Some p /\ In p (files s)) /\
+  (stored s d = snd (exists_flags s d)) /\
+  (located s d = true <-> In d (loc s)).
+Proof.
+  intros s d. unfold exists_flags, stored, located. simpl. repeat split.
+  - apply has_ds_In. - apply has_ds_In. - apply has_rec_In. - apply has_rec_In.
+  - unfold artifact_present. destruct (rec_path s d) as [p |]; [| discriminate]. intro H. exists p. split; [reflexivity | apply memA_In; exact H].
+  - intros [p [E H]]. unfold artifact_present. rewrite E. apply memA_In. exact H.
+  - apply memN_In. - apply memN_In.
+Qed.
+
+(* the artifact flag implies the datastore flag: a present artifact is always one the records name *)
+Lemma artifact_implies_known : forall s d, artifact_present s d = true -> has_rec s d = true.
+Proof.
+  intros s d. unfold artifact_present, rec_path. destruct (find (fun p => fst p =? d) (recs s)) as [p |] eqn:E; [| discriminate].
+  intros _. apply find_key_some in E. destruct E as [E1 E2]. apply has_rec_In. exists (snd p). destruct p; simpl in *; subst; exact E2.
+Qed.
+
+(* ---------- the registry refuses to forget what a datastore holds ---------- *)
+Lemma registry_refuses_orphan_l : forall s l d, In d l -> In d (loc s) -> step s (RegRemove l) = (s, Err Orphaned).
+Proof.
+  intros s l d Hl Hloc. simpl. unfold reg_remove.
+  assert (E : existsb (fun d0 => memN d0 (loc s)) l = true).
+  { apply existsb_exists. exists d. split; [exact Hl | apply memN_In; exact Hloc]. }
+  rewrite E. reflexivity.
+Qed.
+Lemma registry_remove_ok_iff : forall s l, (exists s', step s (RegRemove l) = (s', Ok)) <-> (forall d, In d l -> ~ In d (loc s)).
+Proof.
+  intros s l. simpl. unfold reg_remove. destruct (existsb (fun d => memN d (loc s)) l) eqn:E.
+  - split; [intros [s' H]; discriminate |].
+    intro H. apply existsb_exists in E. destruct E as [d [Hd Hm]]. apply memN_In in Hm. exfalso. exact (H d Hd Hm).
+  - split; [| intros _; eexists; reflexivity].
+    intros _ d Hd Hloc. assert (existsb (fun d0 => memN d0 (loc s)) l = true) by (apply existsb_exists; exists d; split; [exact Hd | apply memN_In; exact Hloc]). congruence.
+Qed.
+
+(* ---------- the datastore-bridge invariant ---------- *)
+Record wf (s : st) : Prop := {
+  w_loc_rec : forall d, In d (loc s) -> has_rec s d = true;
+  w_trash_rec : forall d, In d (trash s) -> has_rec s d = true;
+  w_rec_somewhere : forall d, has_rec s d = true -> In d (loc s) \/ In d (trash s);
+  w_disjoint : forall d, In d (loc s) -> ~ In d (trash s)
+}.
+
+Lemma wf_init : wf init.
+Proof. constructor; simpl; intros; try contradiction; discriminate. Qed.
+
+Lemma wf_same_datastore : forall s s', loc s' = loc s -> trash s' = trash s -> recs s' = recs s -> wf s -> wf s'.
+Proof.
+  intros s s' E1 E2 E3 [A B C D]. constructor; unfold has_rec in *; rewrite ?E1, ?E2, ?E3; assumption.
+Qed.
+
+Lemma trash_refs_loc : forall l s d, In d (loc (trash_refs l s)) <-> In d (loc s) /\ ~ In d l.
+Proof.
+  intros l s d. unfold trash_refs. simpl. rewrite filter_In, negb_true_iff, memN_false, filter_In, dedup_In, memN_In. tauto.
+Qed.
+Lemma trash_refs_trash : forall l s d, In d (trash (trash_refs l s)) <-> In d (trash s) \/ (In d l /\ In d (loc s)).
+Proof.
+  intros l s d. unfold trash_refs. simpl. rewrite fold_addN_In, filter_In, dedup_In, memN_In. tauto.
+Qed.
+
+Lemma wf_trash_refs : forall l s, wf s -> wf (trash_refs l s).
+Proof.
+  intros l s [A B C D]. constructor; intro d.
+  - rewrite trash_refs_loc. intros [H _]. exact (A d H).
+  - rewrite trash_refs_trash. intros [H | [_ H]]; [exact (B d H) | exact (A d H)].
+  - intro H. change (has_rec s d = true) in H. rewrite trash_refs_loc, trash_refs_trash.
+    destruct (C d H) as [H1 | H1]; [| right; left; exact H1].
+    destruct (memN d l) eqn:E; [apply memN_In in E; right; right; split; assumption | apply memN_false in E; left; split; assumption].
+  - rewrite trash_refs_loc, trash_refs_trash. intros [H1 H2] [H3 | [H3 _]]; [exact (D d H1 H3) | exact (H2 H3)].
+Qed.
+
+Lemma empty_trash_rec : forall s d, has_rec (empty_trash s) d = true <-> has_rec s d = true /\ ~ In d (trash s).
+Proof.
+  intros s d. rewrite !has_rec_In. unfold empty_trash. simpl. split.
+  - intros [p H]. apply filter_In in H. destruct H as [H1 H2]. simpl in H2. apply negb_true_iff, memN_false in H2. split; [exists p; exact H1 | exact H2].
+  - intros [[p H1] H2]. exists p. apply filter_In. split; [exact H1 | simpl; apply negb_true_iff, memN_false; exact H2].
+Qed.
+Lemma empty_trash_trash : forall s d, In d (trash (empty_trash s)) <-> In d (trash s) /\ has_rec s d = false.
+Proof. intros s d. unfold empty_trash. simpl. rewrite filter_In, negb_true_iff. tauto. Qed.
+
+Lemma wf_empty_trash : forall s, wf s -> wf (empty_trash s).
+Proof.
+  intros s [A B C D]. constructor; intro d.
+  - intro H. change (In d (loc s)) in H. apply empty_trash_rec. split; [exact (A d H) | exact (D d H)].
+  - rewrite empty_trash_trash. intros [H1 H2]. rewrite (B d H1) in H2. discriminate.
+  - rewrite empty_trash_rec. intros [H1 H2]. destruct (C d H1) as [H | H]; [left; exact H | contradiction].
+  - intro H. change (In d (loc s)) in H. rewrite empty_trash_trash. intros [H1 _]. exact (D d H H1).
+Qed.
+
+Lemma forget_refs_rec : forall l s d, has_rec (forget_refs l s) d = true <-> has_rec s d = true /\ ~ In d l.
+Proof.
+  intros l s d. rewrite !has_rec_In. unfold forget_refs. simpl. split.
+  - intros [p H]. apply filter_In in H. destruct H as [H1 H2]. simpl in H2. apply negb_true_iff, memN_false in H2. split; [exists p; exact H1 | exact H2].
+  - intros [[p H1] H2]. exists p. apply filter_In. split; [exact H1 | simpl; apply negb_true_iff, memN_false; exact H2].
+Qed.
+Lemma wf_forget_refs : forall l s, (forall d, In d l -> ~ In d (trash s)) -> wf s -> wf (forget_refs l s).
+Proof.
+  intros l s Hsafe [A B C D]. constructor; intro d.
+  - unfold forget_refs at 1. simpl. rewrite filter_In, negb_true_iff, memN_false. intros [H1 H2]. apply forget_refs_rec. split; [exact (A d H1) | exact H2].
+  - intro H. change (In d (trash s)) in H. apply forget_refs_rec. split; [exact (B d H) |]. intro Hl. exact (Hsafe d Hl H).
+  - rewrite forget_refs_rec. intros [H1 H2]. destruct (C d H1) as [H | H]; [left | right; exact H].
+    unfold forget_refs. simpl. apply filter_In. split; [exact H | apply negb_true_iff, memN_false; exact H2].
+  - unfold forget_refs at 1. simpl. rewrite filter_In. intros [H1 _] H2. exact (D d H1 H2).
+Qed.
+
+Lemma wf_store : forall s d r k b, has_rec s d = false -> ~ In d (loc s) -> wf s -> wf (store s d r k b).
+Proof.
+  intros s d r k b Hn Hl [A B C D].
+  assert (R : forall x, has_rec (store s d r k b) x = true <-> x = d \/ has_rec s x = true).
+  { intro x. unfold has_rec, store. simpl. rewrite orb_true_iff, N.eqb_eq. split; intros [H | H]; auto. }
+  constructor; intro x.
+  - simpl. intros [<- | H]; apply R; [left; reflexivity | right; exact (A x H)].
+  - intro H. change (In x (trash s)) in H. apply R. right. exact (B x H).
+  - rewrite R. simpl. intros [-> | H]; [left; left; reflexivity |]. destruct (C x H) as [H1 | H1]; [left; right; exact H1 | right; exact H1].
+  - simpl. intros [<- | H] H2; [| exact (D x H H2)]. rewrite (B d H2) in Hn. discriminate.
+Qed.
+
+Lemma remove_run_datastore : forall s r s', remove_run s r = inl s' -> loc s' = loc s /\ trash s' = trash s /\ recs s' = recs s /\ files s' = files s.
+Proof.
+  intros s r s' H. unfold remove_run in H.
+  destruct (ctype s r); [| discriminate]. destruct (is_child s r); [discriminate |].
+  destruct (existsb _ _); [discriminate |]. inversion H. simpl. repeat split.
+Qed.
+Lemma remove_runs_datastore : forall rs s s', remove_runs s rs = inl s' -> loc s' = loc s /\ trash s' = trash s /\ recs s' = recs s /\ files s' = files s.
+Proof.
+  induction rs as [| r rs IH]; intros s s' H; simpl in H.
+  - inversion H. repeat split.
+  - destruct (remove_run s r) as [s1 | e] eqn:E; [| discriminate].
+    apply remove_run_datastore in E. destruct E as [E1 [E2 [E3 E4]]].
+    apply IH in H. destruct H as [H1 [H2 [H3 H4]]]. rewrite H1, H2, H3, H4. repeat split; assumption.
+Qed.
+
+(* an operation is "safe" unless it forgets (removeRuns(unstore=False)) a dataset whose location row is pending in the trash *)
+Definition safe (s : st) (o : op) : bool :=
+  match o with
+  | RemoveRuns rs false => forallb (fun d => negb (memN d (trash s))) (run_members s rs)
+  | _ => true
+  end.
+
+Lemma wf_step : forall s o, wf s -> safe s o = true -> wf (exec s o).
+Proof.
+  intros s o W S. unfold exec. destruct o; simpl.
+  - (* RegColl *) destruct (ctype s c); simpl; [exact W | eapply wf_same_datastore; [| | | exact W]; reflexivity].
+  - (* SetChain *) destruct (ctype s c) as [[] |]; simpl; try exact W.
+    destruct (negb _); simpl; [exact W |]. destruct (memN c children); simpl; [exact W |].
+    eapply wf_same_datastore; [| | | exact W]; reflexivity.
+  - (* Put *) destruct (ctype s r) as [[] |]; simpl; try exact W.
+    destruct (ds_get s d).
+    + destruct (negb _); simpl; [exact W |]. destruct (has_rec s d || memN d (loc s)) eqn:E; simpl; [exact W |].
+      apply orb_false_iff in E. destruct E as [E1 E2]. apply wf_store; [exact E1 | apply memN_false; exact E2 | exact W].
+    + destruct (existsb _ _); simpl; [exact W |]. destruct (has_rec s d || memN d (loc s)) eqn:E; simpl; [exact W |].
+      apply orb_false_iff in E. destruct E as [E1 E2]. apply wf_store; [exact E1 | apply memN_false; exact E2 | exact W].
+  - (* Tag *) destruct (ctype s c) as [[] |]; simpl; try exact W.
+    destruct (tag_all s c l (tags s)); simpl; [| exact W]. eapply wf_same_datastore; [| | | exact W]; reflexivity.
+  - (* Certify *) destruct (ctype s c) as [[] |]; simpl; try exact W.
+    destruct (key_of s d); simpl; [| exact W]. destruct (existsb _ _); simpl; [exact W |].
+    eapply wf_same_datastore; [| | | exact W]; reflexivity.
+  - (* Prune *)
+    assert (G : forall s1, wf s1 -> wf (fst (match (if purge then reg_remove l s1 else if disassociate then Some (disassoc tgs l s1) else Some s1) with
+                                   | None => (s, Err Orphaned) | Some s2 => (if unstore then empty_trash s2 else s2, Ok) end))).
+    { intros s1 W1.
+      assert (W2 : forall s2, (if purge then reg_remove l s1 else if disassociate then Some (disassoc tgs l s1) else Some s1) = Some s2 -> wf s2).
+      { intros s2 H. destruct purge.
+        - unfold reg_remove in H. destruct (existsb _ _); [discriminate |]. inversion H. eapply wf_same_datastore; [| | | exact W1]; reflexivity.
+        - destruct disassociate; inversion H; subst; [eapply wf_same_datastore; [| | | exact W1]; reflexivity | exact W1]. }
+      destruct (if purge then reg_remove l s1 else if disassociate then Some (disassoc tgs l s1) else Some s1) as [s2 |]; simpl; [| exact W].
+      specialize (W2 s2 eq_refl). destruct unstore; [apply wf_empty_trash |]; exact W2. }
+    assert (G' : wf (fst (let s1 := if unstore then trash_refs l s else s in
+                    match (if purge then reg_remove l s1 else if disassociate then Some (disassoc tgs l s1) else Some s1) with
+                    | None => (s, Err Orphaned) | Some s2 => (if unstore then empty_trash s2 else s2, Ok) end))).
+    { apply G. destruct unstore; [apply wf_trash_refs |]; exact W. }
+    destruct purge.
+    + destruct disassociate; simpl; [| exact W]. destruct unstore; simpl; [| exact W]. exact G'.
+    + destruct disassociate.
+      * destruct tgs as [| t tgs]; [exact W |]. destruct (check_kinds s Tagged (t :: tgs)); [exact W | exact G'].
+      * exact G'.
+  - (* RemoveRuns *)
+    destruct (check_kinds s Run rs); simpl; [exact W |].
+    destruct unstore.
+    + destruct (remove_runs (trash_refs (run_members s rs) s) rs) as [s2 | e] eqn:E; simpl; [| exact W].
+      apply remove_runs_datastore in E. destruct E as [E1 [E2 [E3 _]]].
+      apply wf_empty_trash. eapply wf_same_datastore; [exact E1 | exact E2 | exact E3 |]. apply wf_trash_refs. exact W.
+    + destruct (remove_runs (forget_refs (run_members s rs) s) rs) as [s2 | e] eqn:E; simpl; [| exact W].
+      apply remove_runs_datastore in E. destruct E as [E1 [E2 [E3 _]]].
+      eapply wf_same_datastore; [exact E1 | exact E2 | exact E3 |]. apply wf_forget_refs; [| exact W].
+      simpl in S. rewrite forallb_forall in S. intros d Hd. apply memN_false. apply negb_true_iff. exact (S d Hd).
+  - (* ExtDelete *) eapply wf_same_datastore; [| | | exact W]; reflexivity.
+  - (* Trash *) apply wf_trash_refs. exact W.
+  - (* EmptyTrash *) apply wf_empty_trash. exact W.
+  - (* RegRemove *) unfold reg_remove. destruct (existsb _ _); simpl; [exact W |]. eapply wf_same_datastore; [| | | exact W]; reflexivity.
+Qed.
+
+(* all histories whose forget-steps are safe *)
+Fixpoint hist_safe (s : st) (h : list op) : bool :=
+  match h with [] => true | o :: r => safe s o && hist_safe (exec s o) r end.
+
+Lemma wf_fold : forall h s, wf s -> hist_safe s h = true -> wf (fold_left exec h s).
+Proof.
+  induction h as [| o h IH]; intros s W S; simpl in *; [exact W |].
+  apply andb_true_iff in S. destruct S as [S1 S2]. apply IH; [apply wf_step; assumption | exact S2].
+Qed.
+Lemma wf_reachable : forall h, hist_safe init h = true -> wf (run_hist h).
+Proof. intros h S. apply wf_fold; [exact wf_init | exact S]. Qed.
